@@ -80,17 +80,25 @@ def accuIn (fix : Bool) (p : Period) (h accu : Nat) : Nat :=
 def finish (dist : Bool) (bd : Nat) (e : Env) : Nat × Nat :=
   if dist then (0, distribute bd e) else (bd, 0)
 
+/-- inside a period with a non-zero allocation: is this a distribution block, the per-block share,
+    the block distribution (accumulator + share; `sdk.Uint` addition), then distribute or carry -/
+def endBlockActive (fix : Bool) (p : Period) (h accu : Nat) (e : Env) : M (Nat × Nat) :=
+  match isDistBlock h p.start p.mod with
+  | .error x => .error x
+  | .ok dist =>
+    match calcBlockDistribution p with
+    | .error x => .error x
+    | .ok cur =>
+      match Uint.add (accuIn fix p h accu) cur with
+      | .error x => .error x
+      | .ok bd => .ok (finish dist bd e)
+
 /-- reward part of the clp `EndBlocker` at height `h` with stored accumulator `accu`:
     returns (accumulator stored afterwards, net rowan created) -/
 def endBlock (fix : Bool) (periods : List Period) (h accu : Nat) (e : Env) : M (Nat × Nat) :=
   match currentPeriod periods h with
   | none => .ok (accu, 0)
-  | some p =>
-    if p.alloc = 0 then .ok (accu, 0) else do
-      let dist ← isDistBlock h p.start p.mod
-      let cur ← calcBlockDistribution p
-      let bd ← Uint.add (accuIn fix p h accu) cur
-      pure (finish dist bd e)
+  | some p => if p.alloc = 0 then .ok (accu, 0) else endBlockActive fix p h accu e
 
 /-- consecutive blocks h, h+1, …: final accumulator and the net amounts created per block -/
 def run (fix : Bool) (periods : List Period) : Nat → Nat → List Env → M (Nat × List Nat)
